@@ -227,6 +227,29 @@ def small_scope(step):
             yield m / 100.0, e
 
 
+def powers_of_ten():
+    """deterministic sub-stream, always run: for EVERY exponent k in [-12, 12] the reference number (uncertainty in
+    automatic / error mode, value in value mode) is exactly 10^k (+-10^k for the value), the partner number has non-zero
+    digits just below the correct rounding place; all three styles, n in 1..6.  Yields (style, mode, n, v, e) inside the
+    property's domain (an order of magnitude computed one too low or too high for an exact power of ten -- log(x, 10),
+    log10 noise, ceil -- shows here and nowhere else)"""
+    for k in range(-12, 13):
+        p10 = F(10) ** k
+        pairs = []
+        for mant in (F(12345, 1000), F(98765, 100000), F(-76543, 10000), F(54321, 100), F(5, 1)):
+            pairs.append((("auto", "error"), mant * p10, p10))           # uncertainty = 10^k
+        for sign in (1, -1):
+            for mant in (F(56, 1000), F(1234, 10000), F(567, 100000), F(45, 100)):
+                pairs.append((("value",), sign * p10, mant * p10))        # value = +-10^k
+        for modes, fv, fe in pairs:
+            v, e = float(fv), float(fe)
+            for mode in modes:
+                for style in STYLES:
+                    for n in range(1, 7):
+                        if in_domain(style, mode, n, v, e):
+                            yield style, mode, n, v, e
+
+
 # ---- Coq encoding ---------------------------------------------------------------------------------
 def qlit(fr):
     return "({} # {})".format(fr.numerator, fr.denominator)
@@ -348,6 +371,14 @@ def correspondence(ctx):
     for _ in range(n_pairs):
         v, e = gen_pair(rng)
         add(v, e, rng.sample(configs, per_pair), "stream")
+    n_pow = 0
+    by_pair = {}
+    for (st, mo, n, v, e) in powers_of_ten():
+        by_pair.setdefault((v, e), []).append((st, mo, n))
+    for (v, e), cfgs in by_pair.items():
+        add(v, e, cfgs, "powers-of-ten")
+        n_pow += len(cfgs)
+    res.extra["powers_of_ten_cases"] = n_pow
     n_small = 0
     for v, e in small_scope(ctx.n(23, 1)):
         cfgs = [(s, m, n) for s in STYLES for m in MODES for n in (1, 2, 3)]
@@ -403,7 +434,9 @@ def correspondence(ctx):
                 "(9.5.., 9.96.., 0.95.., 99.5), ties, exact powers of ten, zeros, negatives, 70% with the uncertainty -2..9 decades "
                 "below the value; each printed under {} of the 54 configurations (3 styles x 3 modes x n in 1..6) through "
                 "str(Measurement) / repr, str(MeasurementArray) or get_printer(); plus the small scope v = m/100, m in [-50, 1100] x 12 uncertainties "
-                "around the carries (stride 1 = exhaustive in the thorough tier) and a wild stream outside the property's domain "
+                "around the carries (stride 1 = exhaustive in the thorough tier), the deterministic powers-of-ten sub-stream (for every "
+                "k in [-12, 12] the reference number is exactly 10^k -- uncertainty in automatic / error mode, +-value in value "
+                "mode -- against partners with digits just below the rounding place, 3 styles, n in 1..6, always run) and a wild stream outside the property's domain "
                 "(negative uncertainty, 1e+-15, n <= 9, <= 14 digits). The printed text is parsed to (mantissa integers, decimals, "
                 "exponent, style marks) and compared inside Coq with the model run with round-half-even; within 2^-47 relative of a "
                 "tie both roundings are admitted (near_ties). Configurations whose correct text needs > 12 digits are skipped "
@@ -472,6 +505,17 @@ def check(style, mode, n, v, e, via="measurement"):
             d, want_d, n, what, s)
     if (ref / P).denominator != 1:
         return "more than {} significant figures in the printed {} in {!r}".format(n, what, s)
+    # the place of the n-th significant figure of the reference number as given (P is that place, or ten times it when
+    # the rounded reference number carried into the next decade): nothing may be printed below it
+    ref_in = fv if mode == "value" else fe
+    P0 = F(10) ** (order(ref_in) - n + 1)
+    if P not in (P0, 10 * P0):
+        return "the printed {} {} is not {} rounded to {} significant figures in {!r}".format(
+            what, float(ref), float(ref_in), n, s)
+    for name, printed in (("value", V), ("uncertainty", E)):
+        if (printed / P0).denominator != 1:
+            return "the printed {} has digits below the place of significant figure {} of the {} ({}) in {!r}".format(
+                name, n, what, float(P0), s)
     tol = (F(1, 2) + F(1, 20)) * P + noise
     if abs(V - fv) > tol:
         return "value off by {:.4g} units of the rounding place in {!r}".format(float(abs(V - fv) / P), s)
@@ -569,6 +613,27 @@ def search(ctx, suspects, budget):
     configs = all_configs()
     tried = 0
     small = list(small_scope(ctx.n(9, 1)))
+
+    def report(c):
+        why = fails(c)
+        if not why:
+            return
+        small_c = shrink(c)
+        why = fails(small_c) or why
+        key = re.sub(r"[-\d.]+", "#", why)[:50]
+        if key in seen:
+            return
+        seen.add(key)
+        out.append(Violation(ID, "print", small_c, "{} with {}".format(why, small_c)))
+
+    # deterministic part, independent of the budget: exact powers of ten at every exponent
+    n_pow = 0
+    for (st, mo, n, v, e) in powers_of_ten():
+        if len(out) >= 3:
+            break
+        n_pow += 1
+        report(case_of(st, mo, n, v, e))
+    ctx.notes.append("oracle: {} deterministic powers-of-ten cases".format(n_pow))
     while len(out) < 3:
         if todo:
             cases = [todo.pop(0)]
@@ -582,15 +647,7 @@ def search(ctx, suspects, budget):
             cases = [case_of(s, m, n, v, e) for (s, m, n) in rng.sample(configs, 6)]
         for c in cases:
             tried += 1
-            why = fails(c)
-            if why:
-                small_c = shrink(c)
-                why = fails(small_c) or why
-                key = re.sub(r"[-\d.]+", "#", why)[:50]
-                if key in seen:
-                    continue
-                seen.add(key)
-                out.append(Violation(ID, "print", small_c, "{} with {}".format(why, small_c)))
+            report(c)
     ctx.notes.append("oracle: {} (pair, configuration) cases in {:.1f}s".format(tried, time.time() - t0))
     return out
 
